@@ -12,6 +12,7 @@ Arguments alloc_value : simpl never.
 Arguments alloc_tensor : simpl never.
 Arguments apply_info : simpl never.
 Arguments apply_info_opt : simpl never.
+Arguments apply_info_init : simpl never.
 Arguments lookup_scopes : simpl never.
 Arguments in_table : simpl never.
 Arguments lookup : simpl never.
@@ -71,12 +72,19 @@ Proof.
   induction ts as [|t r IH];  cbn; intros h h' cs H.
   - inversion H; subst. apply same_core_refl.
   - destruct (tp_bad_ctor t); [discriminate|].
-    destruct (alloc_tensor h (Some (tp_name t)) (tp_tok t) (tp_pay t) (tp_bad_info t)) as [h1 c] eqn:Ea.
+    destruct (alloc_tensor h (Some (tp_name t)) (tp_tok t) (tp_pay t) (tp_bad_info t) (tp_fill t)) as [h1 c] eqn:Ea.
     destruct (alloc_tensors h1 r) as [[h2 cs']|e] eqn:Er; [|discriminate]. inversion H; subst.
     eapply same_core_trans; [eapply alloc_tensor_same_core; eauto | eauto].
 Qed.
 
 (* ---- initializers *)
+Lemma apply_info_init_same_core h t vis v h' : apply_info_init h t vis v = Ok h' -> same_core h h'.
+Proof.
+  unfold apply_info_init. destruct (vi_lookup (tp_name t) vis) as [i|].
+  - destruct (vi_bad i); intros H; inversion H; subst. apply updv_same_core. intros x; reflexivity.
+  - intros H; inversion H; subst. apply same_core_refl.
+Qed.
+
 Lemma deser_inits_ok b ON sc vis : forall ts cs h tbl h1 tbl1 vs,
   st_ok b ON sc h tbl -> deser_inits h tbl vis ts cs = Ok (h1, tbl1, vs) ->
   st_ok b ON sc h1 tbl1 /\ step b ON h h1 /\
@@ -96,11 +104,11 @@ Proof.
     + intros u [Hu|Hu]; [subst u; exists (tp_name t); split; auto; apply C; apply lookup_In; auto | auto].
   - destruct (tp_bad_info t); [discriminate|].
     destruct (alloc_value h (Some (tp_name t)) (Some c) (tp_pay t)) as [h0 v] eqn:Ea.
-    destruct (apply_info_opt h0 (tp_name t) vis v) as [h2|e] eqn:Ei; [|discriminate].
+    destruct (apply_info_init h0 t vis v) as [h2|e] eqn:Ei; [|discriminate].
     destruct (deser_inits h2 ((tp_name t, v) :: tbl) vis r cr) as [[[h3 t3] vs']|e] eqn:Er; [|discriminate].
     inversion H; subst; clear H.
     pose proof (st_ok_alloc_cons _ _ _ _ _ _ _ _ _ _ Hs Ea) as Hs0.
-    pose proof (apply_info_opt_same_core _ _ _ _ _ Ei) as Hc.
+    pose proof (apply_info_init_same_core _ _ _ _ _ Ei) as Hc.
     pose proof (st_ok_same_core _ _ _ _ _ _ Hs0 Hc) as Hs2.
     destruct (IH _ _ _ _ _ _ Hs2 Er) as (A & B & C & D). csplit; auto.
     + eapply step_trans; [eapply alloc_step; eauto|]. eapply step_trans; [apply same_core_step; eauto | eauto].
